@@ -375,7 +375,7 @@ def check(ROOT, REPO, LEAN, GOENV, pid, prop, tier, seed):
             # time budget per scenario: many times what the unchanged tree needs (under a minute in
             # the quick tier); only a tree on which requests hang or time out can reach it
             cases = run_harness(ROOT, GOENV, sc["scn"], seed, n * boost, sc.get("filter"), sc.get("extra"),
-                                timeout=240 if tier == "quick" else 5400,
+                                timeout=600 if tier == "quick" else 5400,
                                 race_out=race_reports, repo=REPO, env_extra=sc.get("env"))
             if run_harness.truncated:
                 issues.append({"scn": sc["scn"], "aspect": "driver", "kind": "impl-vs-model", "method": sc.get("filter"),
